@@ -237,6 +237,10 @@ func runC05(cx *Ctx, r *Report) {
 			r.violate("adjust-end-height", "AdjustPool", "", "AdjustPool no longer recomputes the pool's end height")
 		}
 	}
+	// a stale copy of the pool or its rules written back over the shared pool update puts
+	// already-released rewards back on the books: recorded stakes + budgets then exceed
+	// the escrow and the last withdrawals fail
+	cx.lostUpdateRule(r, []string{"farm"}, 20)
 	r.requireCount("adjust-end-height", 1)
 	cx.rewardFormula(r)
 	r.requireCount("reward-formula", 1)
@@ -447,6 +451,48 @@ func runC06(cx *Ctx, r *Report) {
 		}
 	}
 	cx.lostUpdateRule(r, []string{"farm"}, 20)
+	// the per-share accumulator grows by ⌊collected / total staked⌋ at 18 decimals: a
+	// division that rounds to nearest or up lets ⌊rps·stake⌋ exceed what was released,
+	// and the collector account cannot cover the payouts
+	{
+		seen := map[string]bool{}
+		n := 0
+		for _, name := range sortedKeys(per) {
+			for _, x := range per[name] {
+				if x.ev.Kind != "assign:RewardRule.RewardPerShare" && x.ev.Kind != "delta:RewardRule.RewardPerShare:+" {
+					continue
+				}
+				pos := x.ev.Pos(cx)
+				if seen[pos] {
+					continue
+				}
+				seen[pos] = true
+				n++
+				var divs, bad []string
+				var walk func(t *Term)
+				walk = func(t *Term) {
+					if t == nil {
+						return
+					}
+					if t.Op == "call" && strings.Contains(t.Name, "Quo") {
+						divs = append(divs, t.Name)
+						m := t.Name[strings.LastIndex(t.Name, ".")+1:]
+						if m != "QuoInt" && m != "QuoInt64" && m != "QuoTruncate" && m != "QuoRaw" {
+							bad = append(bad, t.Name)
+						}
+					}
+					for _, a := range t.Args {
+						walk(a)
+					}
+				}
+				walk(x.ev.Args[0])
+				r.check(len(divs) > 0 && len(bad) == 0, "release-per-share-truncates", pos, pos, "the per-share increment is computed with a truncating division ("+strings.Join(divs, ", ")+")", "RewardPerShare is raised by a quotient that does not truncate ("+strings.Join(append(bad, divs...), ", ")+"): LegacyDec.Quo rounds half-even at the 18th decimal, so ⌊rewardPerShare·stake⌋ can exceed the amount released to the collector and the farmers' payouts fail or are paid out of other pools' rewards")
+			}
+		}
+		if n == 0 {
+			r.toolErr("no assignment to RewardRule.RewardPerShare found")
+		}
+	}
 	// every reward payout is preceded by the pool's reward release unless the pool has ended:
 	// the only route around the shared pool update (Unstake) is selected by Expired(pool)
 	{
